@@ -137,6 +137,32 @@ TABLES = {
    ("services::valve_master_server::service", "construct_payload", None, W, "master server request"),
    ("services::valve_master_server::service", "query_specific", None, CL, "master server exchange"),
   ]},
+ "C12": {"provenance": "timeout settings plumbing: constructor, getters and defaults must hand each duration to its own role; pinned tree reviewed",
+  "fns": [
+   ("protocols::types", "new", "TimeoutSettings", {}, "constructor field wiring"),
+   ("protocols::types", "get_read", None, W, "read getter"),
+   ("protocols::types", "get_write", None, W, "write getter"),
+   ("protocols::types", "get_connect", None, W, "connect getter"),
+   ("protocols::types", "get_retries", None, W, "retries getter"),
+   ("protocols::types", "get_retries_or_default", None, W, "retries or default"),
+   ("protocols::types", "get_read_and_write_or_defaults", None, W, "read/write or defaults"),
+   ("protocols::types", "get_connect_or_default", None, W, "connect or default"),
+   ("protocols::types", "const_default", None, {}, "defaults"),
+  ]},
+ "C19": {"crate": "gamedig_cli-bin", "provenance": "CLI control flow: which writer each (mode, format) pair reaches with which view of the response, and how main chains lookup, resolution, query and output; pinned tree reviewed",
+  "fns": [
+   ("", "output_result", None, {"calls": True, "writer": True}, "mode x format dispatch"),
+   ("", "main", None, CL, "query pipeline"),
+   ("", "find_game", None, W, "game lookup"),
+   ("", "resolve_ip_or_domain", None, {"calls": True, "writer": True}, "address resolution"),
+   ("", "resolve_domain", None, W, "DNS lookup"),
+   ("", "set_hostname_if_missing", None, W, "hostname propagation"),
+   ("", "output_result_json", None, W, "json writer"),
+   ("", "output_result_json_pretty", None, W, "pretty json writer"),
+   ("", "output_result_bson_hex", None, W, "bson hex writer"),
+   ("", "output_result_bson_base64", None, W, "bson base64 writer"),
+   ("", "output_result_debug", None, W, "debug writer"),
+  ]},
  "C14": {"provenance": "generic dispatcher: per protocol arm the callee and exactly which of (socket_addr built from the definition's default port | raw address, port | definition request settings | caller extra settings | defaults) it passes; pinned tree reviewed against the per-game wrappers",
   "fns": [
    ("games::query", "query", None, CL, "generic entry"),
@@ -160,8 +186,8 @@ TABLES = {
 }
 
 
-def resolve(idx, mod, name, ty):
-    pre = "gamedig::" + mod + "::"
+def resolve(idx, mod, name, ty, crate_prefix="gamedig"):
+    pre = crate_prefix + "::" + (mod + "::" if mod else "")
     c = [k for k in idx if k.startswith(pre) and k.endswith("::" + name) and (ty is None or ty in k)
          and ("::" not in k[len(pre):-len(name) - 2].replace("::<", "<").split("<")[0] if k[len(pre):-len(name) - 2] and not k[len(pre):].startswith("<") else True)]
     c = [k for k in c if (k[len(pre):] == name) or k[len(pre):].startswith("<")]
@@ -169,14 +195,16 @@ def resolve(idx, mod, name, ty):
 
 
 def main(which):
-    c = facts.load()
-    idx = TS.fn_index(c)
     for prop, tab in TABLES.items():
         if which and prop not in which:
             continue
-        out = {"provenance": tab["provenance"], "functions": {}}
+        cname = tab.get("crate", "gamedig-lib")
+        c = facts.load(name=cname)
+        idx = TS.fn_index(c)
+        cpre = c.name
+        out = {"provenance": tab["provenance"], "crate": cname, "functions": {}}
         for mod, fname, ty, opts, table in tab["fns"]:
-            cands = resolve(idx, mod, fname, ty)
+            cands = resolve(idx, mod, fname, ty, cpre)
             if len(cands) != 1:
                 print("!! %s::%s (%s): %d candidates %s" % (mod, fname, ty, len(cands), cands[:5]))
                 continue
